@@ -136,6 +136,8 @@ def run(chk, repo):
     ok = isinstance(r, ast.Return) and isinstance(r.value, ast.Call) and unparse(r.value.func) == "sum"
     if ok:
         ge = r.value.args[0]
+        ok = isinstance(ge, (ast.GeneratorExp, ast.ListComp))
+    if ok:
         gens = [(unparse(g.target), unparse(g.iter)) for g in ge.generators]
         pa, pb = [a.arg for a in inner[0].args.args]
         ok = sorted(gens) == sorted([("(i, ai)", "enumerate(%s.numlist)" % pa), ("(j, bj)", "enumerate(%s.numlist)" % pb)])
@@ -154,16 +156,31 @@ def run(chk, repo):
                 ok = False
     chk.decide(ok, "C10.levinson", WL("levinson_durbin.inner"), short(r),
                why="inner product must be sum over i, j of acdata[|i-j|] * a_i * b_j", node=r)
-    tr = [s for s in body if isinstance(s, ast.Try)]
-    chk.require(len(tr) == 1, "levinson_durbin: try block not found")
-    tb = tr[0].body
-    ok = len(tb) == 2 and unparse(tb[0]) == "A = ZFilter(1)" and isinstance(tb[1], ast.For) \
-        and unparse(tb[1].iter) in ("xrange(1, order + 1)", "range(1, order + 1)") and unparse(tb[1].target) == "m"
-    chk.decide(ok, "C10.levinson", WL("levinson_durbin"), "A = 1; for m in 1..order", why="order recursion from the "
-               "trivial predictor up to the requested order", node=tr[0])
+    loops = [n for n in own_nodes(ld) if isinstance(n, ast.For) and any(
+        isinstance(x, (ast.Assign, ast.AugAssign)) and unparse(x.targets[0] if isinstance(x, ast.Assign) else x.target) == "A"
+        for x in ast.walk(n))]
+    chk.require(len(loops) == 1, "levinson_durbin: order loop not found")
+    loop = loops[0]
+    mvar = unparse(loop.target)
+    inits = [n for n in own_nodes(ld) if isinstance(n, ast.Assign) and unparse(n.targets[0]) == "A" and n.lineno < loop.lineno]
+    ok = len(inits) == 1 and unparse(inits[0].value) == "ZFilter(1)" and isinstance(loop.target, ast.Name) \
+        and unparse(loop.iter) in ("xrange(1, order + 1)", "range(1, order + 1)")
+    chk.decide(ok, "C10.levinson", WL("levinson_durbin"), "A = 1; for %s in 1..order" % mvar, why="order recursion from the "
+               "trivial predictor up to the requested order", node=loop)
+    # the handler protecting the recursion step: a try around the loop, or a try that is the loop body
+    lb = list(loop.body)
+    guard = None
+    if len(lb) == 1 and isinstance(lb[0], ast.Try):
+        guard = lb[0]
+        lb = list(guard.body)
+    else:
+        p_ = getattr(loop, "_parent", None)
+        while p_ is not None and p_ is not ld:
+            if isinstance(p_, ast.Try) and any(loop is x for x in p_.body):
+                guard = p_
+                break
+            p_ = getattr(p_, "_parent", None)
     if ok:
-        lb = tb[1].body
-
         def hk(ev, name, node):
             if name == "inner":
                 return opaque("inner", *[ev.ev(a) for a in node.args])
@@ -171,30 +188,49 @@ def run(chk, repo):
                 return opaque("subst", ev.ev(node.func), ev.ev(node.args[0]))
             return None
         try:
+            from ..ratfun import sym_pow
             env = {"z": RF.sym("x") ** -1}
-            ok = len(lb) == 2 and isinstance(lb[0], ast.Assign) and unparse(lb[0].targets[0]) == "B"
-            if ok:
-                Bv = Evaluator(env, call_hook=hk).ev(lb[0].value)
-                xm = RF.sym("x")
-                from ..ratfun import sym_pow
-                wantB = opaque("subst", RF.sym("A"), RF.sym("x")) * sym_pow(RF.sym("x"), RF.sym("m"))
-                okB = Bv == wantB
-                st = lb[1]
-                env2 = dict(env, B=RF.sym("B"))
-                okA = isinstance(st, ast.AugAssign) and isinstance(st.op, ast.Sub) and unparse(st.target) == "A"
-                if okA:
-                    upd = Evaluator(env2, call_hook=hk).ev(st.value)
-                    wantU = opaque("inner", RF.sym("A"), sym_pow(RF.sym("x"), RF.sym("m"))) / opaque("inner", RF.sym("B"), RF.sym("B")) * RF.sym("B")
+            wantB = opaque("subst", RF.sym("A"), RF.sym("x")) * sym_pow(RF.sym("x"), RF.sym(mvar))
+            Bname = None
+            okA = False
+            for st in lb:
+                if isinstance(st, ast.Assign) and len(st.targets) == 1 and isinstance(st.targets[0], ast.Name) \
+                        and st.targets[0].id != "A":
+                    try:
+                        val = Evaluator(env, call_hook=hk).ev(st.value)
+                    except Inconclusive:
+                        # not a value of the recursion's algebra: it cannot be the documented B (nor feed the update)
+                        env[st.targets[0].id] = RF.sym("<%s>" % short(st.value, 30))
+                        continue
+                    if val == wantB and Bname is None:
+                        Bname = st.targets[0].id
+                        env[Bname] = RF.sym("B")
+                    else:
+                        env[st.targets[0].id] = val
+                elif isinstance(st, ast.AugAssign) and isinstance(st.op, ast.Sub) and unparse(st.target) == "A" and Bname:
+                    upd = Evaluator(env, call_hook=hk).ev(st.value)
+                    wantU = opaque("inner", RF.sym("A"), sym_pow(RF.sym("x"), RF.sym(mvar))) / opaque("inner", RF.sym("B"), RF.sym("B")) * RF.sym("B")
                     okA = upd == wantU
-                ok = okB and okA
+                elif isinstance(st, ast.Assign) and unparse(st.targets[0]) == "A" and Bname:
+                    upd = Evaluator(env, call_hook=hk).ev(st.value)
+                    wantU = RF.sym("A") - opaque("inner", RF.sym("A"), sym_pow(RF.sym("x"), RF.sym(mvar))) / opaque("inner", RF.sym("B"), RF.sym("B")) * RF.sym("B")
+                    okA = upd == wantU
+                elif isinstance(st, (ast.Assign, ast.AugAssign)):
+                    okA = False          # an update of A (or of something else) that is not the documented one
+                else:
+                    # the documented step is two assignments: anything else in the body is a different algorithm
+                    okA = False
+                    Bname = Bname or "?"
+                    break
+            okl = Bname is not None and okA
         except Inconclusive as ex:
             raise AnalysisError("levinson_durbin loop not interpretable: %s" % ex)
-        chk.decide(ok, "C10.levinson", WL("levinson_durbin"), " ; ".join(unparse(s) for s in lb),
-                   why="recursion must be B = A(1/z) z^-m ; A -= <A, z^-m> / <B, B> * B", node=tb[1])
-    hd = tr[0].handlers
+        chk.decide(okl, "C10.levinson", WL("levinson_durbin"), " ; ".join(unparse(s) for s in lb),
+                   why="recursion must be B = A(1/z) z^-m ; A -= <A, z^-m> / <B, B> * B", node=loop)
+    hd = guard.handlers if guard is not None else []
     ok = len(hd) == 1 and unparse(hd[0].type) == "ZeroDivisionError" and "raise ParCorError" in unparse(hd[0].body[0])
     chk.decide(ok, "C10.levinson", WL("levinson_durbin"), "ZeroDivisionError -> ParCorError",
-               why="a singular step must be reported as ParCorError", node=tr[0])
+               why="a singular step must be reported as ParCorError", node=guard or loop)
     # error before return
     nerr = 0
     for q, kind in (("levinson_durbin", "fn"), ("nautocor", "st"), ("covar", "st"), ("kcovar", "st")):
